@@ -696,13 +696,14 @@ func sortOf(t *Term) string {
 
 type Emitter struct {
 	sb   strings.Builder
+	ufs  map[string]bool
 	done map[int]bool
 	lits []*Term // string literal atoms declared (atom mode)
 	vars []*Term
 }
 
 func NewEmitter() *Emitter {
-	e := &Emitter{done: map[int]bool{}}
+	e := &Emitter{done: map[int]bool{}, ufs: map[string]bool{}}
 	if !strTheory {
 		e.sb.WriteString("(declare-sort Str 0)\n")
 	}
@@ -753,7 +754,7 @@ func (e *Emitter) ref(t *Term) string {
 			return fmt.Sprintf("slit%d", t.id)
 		}
 	}
-	if t.Op == "var" {
+	if t.Op == "var" || t.Op == "re" {
 		return t.Name
 	}
 	return fmt.Sprintf("n%d", t.id)
@@ -776,8 +777,28 @@ func (e *Emitter) define(t *Term) {
 		e.vars = append(e.vars, t)
 		return
 	}
+	if t.Op == "re" {
+		return
+	}
 	for _, a := range t.Args {
 		e.define(a)
+	}
+	if strings.HasPrefix(t.Op, "uf:") {
+		fn := "uf_" + t.Op[3:]
+		if !e.ufs[fn] {
+			e.ufs[fn] = true
+			var doms []string
+			for _, a := range t.Args {
+				doms = append(doms, sortOf(a))
+			}
+			fmt.Fprintf(&e.sb, "(declare-fun %s (%s) %s)\n", fn, strings.Join(doms, " "), sortOf(t))
+		}
+		args := make([]string, len(t.Args))
+		for i, a := range t.Args {
+			args[i] = e.ref(a)
+		}
+		fmt.Fprintf(&e.sb, "(define-fun n%d () %s (%s %s))\n", t.id, sortOf(t), fn, strings.Join(args, " "))
+		return
 	}
 	args := make([]string, len(t.Args))
 	for i, a := range t.Args {
